@@ -233,7 +233,10 @@ def main(argv=None):
 
     n_known = sum(len(v) for v in known_hits.values())
     proof_ok = obligations > 0 and discharged == obligations and not crashes and not undecided
-    level = "proof" if proof_ok else "other"
+    # the evidence level is the level claimed in MANIFEST.json (the props module's CATEGORY); a 'proof'
+    # claim is kept only when every obligation of this run was discharged, otherwise the run says 'other'
+    claimed = getattr(P, "CATEGORY", "proof")
+    level = claimed if (claimed != "proof" or proof_ok) else "other"
     explanation = getattr(P, "EXPLANATION", "")
     if not proof_ok:
         explanation = ("NOT a complete proof on this run: %d of %d deductive obligations discharged, %d undecided, %d failing "
